@@ -358,7 +358,29 @@ fn dns_label() -> impl Strategy<Value = Hex> {
     ]
 }
 
+/// names whose wire encoding is at or just below the 255-octet limit
+fn dns_long_name() -> impl Strategy<Value = DnsQuestion> {
+    (248usize..=255, any::<u8>()).prop_map(|(total, c)| {
+        // total = sum(1 + len) + 1
+        let mut left = total - 1;
+        let mut labels = Vec::new();
+        while left > 0 {
+            let l = (left - 1).min(63);
+            if l == 0 {
+                break;
+            }
+            labels.push(Hex(vec![b'a' + (c.wrapping_add(labels.len() as u8) % 26); l]));
+            left -= 1 + l;
+        }
+        DnsQuestion { labels, qtype: 1, qclass: 1 }
+    })
+}
+
 pub fn dns_question_a() -> impl Strategy<Value = DnsQuestion> {
+    prop_oneof![12 => dns_question_mixed(), 1 => dns_long_name()]
+}
+
+fn dns_question_mixed() -> impl Strategy<Value = DnsQuestion> {
     vec(dns_label(), 0..=5).prop_map(|mut labels| {
         // total name length <= 255
         let mut tot = 1;
